@@ -68,7 +68,7 @@ def obligations(tier):
         for ta in TA:
             if ta == '???' and tb[2].count('?') >= 3:
                 continue
-            if ta == DEEP and tb not in TB[:6]:
+            if ta == DEEP and tb not in TB[:4]:
                 continue
             hist(L, (ANY, ANY, ta), tb, step_limit=50_000_000)
     # ---- buffer statistics of the pooled encoder: big result, then k small ones
@@ -91,12 +91,12 @@ def obligations(tier):
     # ---- Reset of public coders: tmpl1, opt1, reader/writer kind 1, calls1, tmpl2, opt2, kind 2, calls2
     RD = [('{"?":{"?":', 0, 0, 3, '{"?":?}', 0, 0, 2), ('[{"?":1},', 1, 1, 3, '{"?":1,"?":2}', 0, 0, 2), ('{"?":1,"?":2}', 1, 0, 2, '[?,?', 0, 1, 2), ('[?', 0, 1, 2, '{"?":1,"?":2}', 0, 1, 2)]
     if not q:
-        RD += [('{"?":{"?":', 0, 0, 3, '{"?":?}', 0, 0, 3), ('{"?":1,"?":2}', 1, 0, 2, '[?,?', 0, 1, 3), ('??', 0, 1, 2, '{"?":1,"?":2}', 0, 1, 2), ('{"?":{"?":', 1, 1, 3, '{"?":?}', 0, 1, 3), ('[[?,{"?":', 0, 0, 3, '[{"?":?}]', 0, 0, 2), ('??', 2, 0, 2, '???', 0, 0, 2)]
+        RD += [('{"?":{"?":', 0, 0, 3, '{"?":?}', 0, 0, 3), ('{"?":1,"?":2}', 1, 0, 2, '[?,?', 0, 1, 3), ('??', 0, 1, 2, '{"?":1,"?":2}', 0, 1, 2), ('{"?":{"?":', 1, 1, 3, '{"?":?}', 0, 1, 3), ('[[?,{"?":', 0, 0, 3, '[{"?":?}]', 0, 0, 2), ('??', 2, 0, 2, '??', 0, 0, 2)]
     for r in RD:
         L.append(ob("reset/dec/%s,o%d,r%d,k%d/then/%s,o%d,r%d,k%d" % r, P, "VerifC18ResetDec", list(r), covers=["end", "first-use-ended-in-error", "first-use-left-nested"]))
     RE = [('{"?":{"?":', 0, 0, '{"?":?}', 0, 0, False), ('[{"?":1},', 1, 1, '{"?":1,"?":2}', 0, 0, True), ('{"?":1,"?":2}', 4, 0, '[?,{"?":1}]', 3, 1, False), ('[?', 0, 1, '{"?":1,"?":2}', 0, 1, True)]
     if not q:
-        RE += [('{"?":{"?":', 1, 1, '{"?":?}', 0, 1, True), ('[[?,{"?":', 4, 0, '[{"?":?}]', 0, 0, False), ('???', 5, 0, '???', 3, 0, False)]
+        RE += [('{"?":{"?":', 1, 1, '{"?":?}', 0, 1, True), ('[[?,{"?":', 4, 0, '[{"?":?}]', 0, 0, False), ('??', 5, 0, '???', 3, 0, False)]
     for r in RE:
         L.append(ob("reset/enc/%s,o%d,w%d/then/%s,o%d,w%d/values=%d" % r, P, "VerifC18ResetEnc", list(r), covers=["end", "first-use-left-nested"]))
     if only:
